@@ -411,6 +411,7 @@ func checkC18(P *Prog, r *Result) {
 	}
 	r.floor("C18/guarded-convert", 6)
 	r.floor("C18/strconv-err", 1)
+	P.checkParsedArithmetic(r, boolSet(work), suffix)
 	// the numeric coercers apply the documented parse to each input type (base-10 Atoi / ParseFloat 64 ...): a
 	// different parse (base 0 reads "010" as 8) silently changes a number (C03's coercion table, numeric rows)
 	// (the table is frozen from the formulas of the default platform; the GOARCH=386 repetition of this check
@@ -650,4 +651,261 @@ func errResultHandled(c *ssa.Call) (bool, string) {
 		}
 	}
 	return false, "error result is not compared with nil"
+}
+
+// checkParsedArithmetic: besides a conversion, the other instruction that silently turns one number into another
+// is integer arithmetic that wraps. A number read from input text (the result of strconv.ParseInt/ParseUint/Atoi)
+// that is multiplied, shifted, added or subtracted on its way to the schema - in a coercer, or in a data provider
+// that rewrites what it hands out (`64k` -> 65536) - must be bounded so that the result fits, else an input such as
+// `16777216T` reaches the destination as 0 with no issue.
+// Scope: the numeric coercers' reachable set plus every Get/GetByField of a data provider and what they call.
+// Accepted guards, enumerated from how such code is written: (G1) the operand is compared, on the way to the
+// operation, with Max/other (a quotient whose divisor is the other operand); (G2) range facts of the operand
+// (the machinery of guarded-convert) times a constant other operand fit the result type; (G3) the result is divided
+// back and compared with the operand. The pinned tree has no such site: the rule reports how many integer
+// operations it looked at so that a scan that sees nothing is visible.
+func (P *Prog) checkParsedArithmetic(r *Result, scope map[*ssa.Function]bool, suffix string) {
+	for _, fn := range P.Funcs {
+		if fn.Parent() != nil || fn.Signature.Recv() == nil || (fn.Name() != "Get" && fn.Name() != "GetByField") || !P.isProviderType(fn.Signature.Recv().Type()) {
+			continue
+		}
+		scope[fn] = true
+	}
+	for changed := true; changed; {
+		changed = false
+		for f := range scope {
+			eachInstr(f, func(_ *ssa.BasicBlock, _ int, in ssa.Instruction) {
+				if ci := callOf(in); ci != nil && ci.static != nil && inModule(funcPkgPath(ci.static)) && ci.static.Blocks != nil && !scope[ci.static] {
+					scope[ci.static] = true
+					changed = true
+				}
+				for _, op := range in.Operands(nil) {
+					if op == nil || *op == nil {
+						continue
+					}
+					if mc, ok := (*op).(*ssa.MakeClosure); ok {
+						if g, ok := mc.Fn.(*ssa.Function); ok && !scope[g] {
+							scope[g] = true
+							changed = true
+						}
+					}
+				}
+			})
+		}
+	}
+	isInt := func(t types.Type) bool {
+		b, ok := t.Underlying().(*types.Basic)
+		return ok && b.Info()&types.IsInteger != 0
+	}
+	var fromParse func(v ssa.Value, d int) bool
+	fromParse = func(v ssa.Value, d int) bool {
+		if d > 6 || v == nil {
+			return false
+		}
+		switch x := cv(v).(type) {
+		case *ssa.Extract:
+			if c, ok := x.Tuple.(*ssa.Call); ok && x.Index == 0 {
+				if ci := callOf(c); ci.static != nil && isPkgFunc(ci.static, "strconv") {
+					switch ci.static.Name() {
+					case "ParseInt", "ParseUint", "Atoi":
+						return true
+					}
+				}
+				// a module helper that returns a parsed number
+				if ci := callOf(c); ci.static != nil && ci.static.Blocks != nil && inModule(funcPkgPath(ci.static)) {
+					res := false
+					eachInstr(ci.static, func(_ *ssa.BasicBlock, _ int, in ssa.Instruction) {
+						if rt, ok := in.(*ssa.Return); ok && x.Index < len(rt.Results) && fromParse(rt.Results[x.Index], d+1) {
+							res = true
+						}
+					})
+					return res
+				}
+			}
+		case *ssa.Call:
+			if ci := callOf(x); ci.static != nil && ci.static.Blocks != nil && inModule(funcPkgPath(ci.static)) && ci.static.Signature.Results().Len() == 1 {
+				res := false
+				eachInstr(ci.static, func(_ *ssa.BasicBlock, _ int, in ssa.Instruction) {
+					if rt, ok := in.(*ssa.Return); ok && len(rt.Results) == 1 && fromParse(rt.Results[0], d+1) {
+						res = true
+					}
+				})
+				return res
+			}
+		case *ssa.Convert:
+			return isInt(x.X.Type()) && fromParse(x.X, d+1)
+		case *ssa.Phi:
+			for _, e := range x.Edges {
+				if fromParse(e, d+1) {
+					return true
+				}
+			}
+		case *ssa.BinOp:
+			return fromParse(x.X, d+1) || fromParse(x.Y, d+1)
+		case *ssa.UnOp:
+			if x.Op == token.SUB {
+				return fromParse(x.X, d+1)
+			}
+		}
+		return false
+	}
+	sameV := func(a, b ssa.Value) bool {
+		a, b = cv(a), cv(b)
+		if a == b {
+			return true
+		}
+		// the same number in another integer type
+		if c, ok := a.(*ssa.Convert); ok && cv(c.X) == b {
+			return true
+		}
+		if c, ok := b.(*ssa.Convert); ok && cv(c.X) == a {
+			return true
+		}
+		return false
+	}
+	scanned, parsed := 0, 0
+	for _, fn := range sortedFuncs(scope) {
+		cnt := 0
+		eachInstr(fn, func(b *ssa.BasicBlock, _ int, in ssa.Instruction) {
+			bo, ok := in.(*ssa.BinOp)
+			if !ok || !isInt(bo.Type()) {
+				return
+			}
+			switch bo.Op {
+			case token.MUL, token.ADD, token.SUB, token.SHL:
+			default:
+				return
+			}
+			scanned++
+			_, cx := bo.X.(*ssa.Const)
+			_, cy := bo.Y.(*ssa.Const)
+			if cx && cy {
+				return
+			}
+			var operand, other ssa.Value
+			switch {
+			case fromParse(bo.X, 0):
+				operand, other = bo.X, bo.Y
+			case fromParse(bo.Y, 0):
+				operand, other = bo.Y, bo.X
+			default:
+				return
+			}
+			parsed++
+			cnt++
+			c := fmt.Sprintf("%s#parsed %s@%d%s", fname(fn), bo.Op, cnt, suffix)
+			// (G1) on the way here the operand was compared with <limit> / other
+			g1hi, g1lo := false, false
+			for _, gd := range guardsOf(b) {
+				cmp, ok := cv(gd.If.Cond).(*ssa.BinOp)
+				if !ok {
+					continue
+				}
+				for _, side := range [][2]ssa.Value{{cmp.X, cmp.Y}, {cmp.Y, cmp.X}} {
+					q, isQ := cv(side[1]).(*ssa.BinOp)
+					if !isQ || q.Op != token.QUO || !sameV(side[0], operand) || !sameV(q.Y, other) {
+						continue
+					}
+					if k, isK := q.X.(*ssa.Const); isK && k.Value != nil {
+						if constant.Sign(k.Value) >= 0 {
+							g1hi = true
+						} else {
+							g1lo = true
+						}
+					}
+				}
+			}
+			// a disjunction `n > Max/u || n < Min/u` leaves through two blocks: look at every comparison of that
+			// shape in the function whose taken edge leaves the path to this operation
+			if !g1hi || !g1lo {
+				eachInstr(fn, func(b2 *ssa.BasicBlock, _ int, in2 ssa.Instruction) {
+					iff, ok := in2.(*ssa.If)
+					if !ok || !b2.Dominates(b) {
+						return
+					}
+					cmp, ok := cv(iff.Cond).(*ssa.BinOp)
+					if !ok {
+						return
+					}
+					for _, side := range [][2]ssa.Value{{cmp.X, cmp.Y}, {cmp.Y, cmp.X}} {
+						q, isQ := cv(side[1]).(*ssa.BinOp)
+						if !isQ || q.Op != token.QUO || !sameV(side[0], operand) || !sameV(q.Y, other) {
+							continue
+						}
+						if k, isK := q.X.(*ssa.Const); isK && k.Value != nil {
+							if constant.Sign(k.Value) >= 0 {
+								g1hi = true
+							} else {
+								g1lo = true
+							}
+						}
+					}
+				})
+			}
+			unsigned := false
+			if bt, ok := bo.Type().Underlying().(*types.Basic); ok && bt.Info()&types.IsUnsigned != 0 {
+				unsigned = true
+			}
+			if g1hi && (g1lo || unsigned) {
+				r.ok("C18/parsed-arithmetic", c, P.ipos(in), "the parsed operand is compared with limit/other before the operation (both bounds): the result fits")
+				return
+			}
+			// (G2) a constant other operand and range facts of the parsed operand
+			if k, isK := cv(other).(*ssa.Const); isK && k.Value != nil && (bo.Op == token.MUL || bo.Op == token.ADD || bo.Op == token.SUB) {
+				if to, okT := P.numTypeOf(bo.Type()); okT {
+					rf := P.factsFor(b, operand)
+					if rf.lo != nil && rf.hi != nil {
+						kk, _ := new(big.Rat).SetString(k.Value.ExactString())
+						if kk != nil {
+							lo, hi := new(big.Rat).Set(rf.lo), new(big.Rat).Set(rf.hi)
+							switch bo.Op {
+							case token.MUL:
+								lo.Mul(lo, kk)
+								hi.Mul(hi, kk)
+								if lo.Cmp(hi) > 0 {
+									lo, hi = hi, lo
+								}
+							case token.ADD:
+								lo.Add(lo, kk)
+								hi.Add(hi, kk)
+							case token.SUB:
+								if operand == bo.X {
+									lo.Sub(lo, kk)
+									hi.Sub(hi, kk)
+								} else {
+									lo, hi = new(big.Rat).Sub(kk, hi), new(big.Rat).Sub(kk, lo)
+								}
+							}
+							min, max := intRange(to)
+							if lo.Cmp(min) >= 0 && hi.Cmp(max) <= 0 {
+								r.ok("C18/parsed-arithmetic", c, P.ipos(in), "range facts of the parsed operand ["+strings.Join(rf.descriptions, ", ")+"] keep the result within "+to.name)
+								return
+							}
+						}
+					}
+				}
+			}
+			// (G3) the result is divided back and compared with the operand
+			if refs := bo.Referrers(); refs != nil && bo.Op == token.MUL {
+				for _, rf := range *refs {
+					q, ok := rf.(*ssa.BinOp)
+					if !ok || q.Op != token.QUO || !sameV(q.Y, other) || q.Referrers() == nil {
+						continue
+					}
+					for _, u := range *q.Referrers() {
+						if cmp, ok := u.(*ssa.BinOp); ok && (cmp.Op == token.EQL || cmp.Op == token.NEQ) && (sameV(cmp.X, operand) || sameV(cmp.Y, operand)) {
+							r.ok("C18/parsed-arithmetic", c, P.ipos(in), "the product is divided back and compared with the parsed operand (overflow check)")
+							return
+						}
+					}
+				}
+			}
+			r.bad("C18/parsed-arithmetic", c, P.ipos(in), fmt.Sprintf("a number parsed from input text is combined with %s in %s arithmetic without a bound that makes the result fit: a large input wraps around and reaches the schema as another number, with no issue", bo.Op, typeStr(bo.Type())))
+		})
+	}
+	r.Extra["parsed_arithmetic_int_ops_scanned"] = scanned
+	r.Extra["parsed_arithmetic_sites"] = parsed
+	if scanned == 0 {
+		r.broken("vacuous: the parsed-arithmetic rule saw no integer operation in the coercers and data providers")
+	}
 }
